@@ -242,6 +242,7 @@ def run(ctx):
                    "the received message object is modified before it is echoed")
     ctx.require("R17.err", nerr, 15, "paths ending in a protocol error")
     # -- once-only
+    once_flag = {}
     for name in ONCE:
         if name not in tab:
             raise AnalysisError("R17.once: no dispatch arm for %r" % name)
@@ -287,10 +288,51 @@ def run(ctx):
                     allset = False
             if allset and succ:
                 good = flag
+        once_flag[h] = good
         ctx.ob("R17.once", "%s is once per connection" % h, good is not None, "",
                "guarded by %s" % good if good else
                "no connection flag is both tested before the effects of %s and set on "
                "its effect path (flags refused on: %s)" % (h, sorted(fail_flags)))
+    # -- remembered names (what was claimed / opened) are not forgotten while
+    #    the command they validate can still be accepted
+    ctx.rule("R17.names", "the remembered nameplate / mailbox name of a connection is "
+             "not cleared while its release / close can still be accepted")
+    name_attrs = {}
+    for p in paths:
+        h = handler_of(p)
+        if not h:
+            continue
+        for (tt, b, s) in p.pc:
+            for x in walk(tt):
+                if x[0] == "cmp" and x[1] == "==":
+                    for a, o in ((x[2], x[3]), (x[3], x[2])):
+                        if a[0] == "attr" and a[1][0] == "obj" and \
+                                a[1][1] == "WebSocketServer" and is_client_value(o):
+                            name_attrs[a[2]] = h
+    nn = 0
+    for en in model.runtime_entries():
+        for p in model.paths(en):
+            evs = None
+            for e, _ in all_events(p, ("setattr",)):
+                if e["attr"] in name_attrs and e["obj"][0] == "obj" and \
+                        e["obj"][1] == "WebSocketServer" and e["value"] == ("const", None) \
+                        and not e["func"].endswith("__init__"):
+                    nn += 1
+                    flag = once_flag.get(name_attrs[e["attr"]])
+                    if evs is None:
+                        evs = [x for x, _ in all_events(p, ("setattr",))]
+                    done = flag is not None and any(
+                        x["obj"] == e["obj"] and x["attr"] == flag and
+                        _is_truthy_value(x["value"]) and x["value"] != ("const", None)
+                        for x in evs)
+                    ctx.ob("R17.names", "%s clears %s" % (e["func"], e["attr"]), done, e,
+                           "" if done else "the connection forgets the name it %s while %s "
+                           "is still unset: a later %s naming something else is accepted "
+                           "instead of being answered with an error" % (
+                               "opened" if "mailbox" in e["attr"] else "claimed", flag,
+                               name_attrs[e["attr"]].replace("handle_", "")))
+    ctx.ob("R17.names", "remembered names: %s" % sorted(name_attrs), len(name_attrs) >= 2, "",
+           "" if len(name_attrs) >= 2 else "expected the mismatch checks of release and close")
     # -- alive
     for mod in ctx.repo.modules.values():
         bad = [n for n in ast.walk(mod.tree) if isinstance(n, ast.Attribute) and
@@ -308,10 +350,15 @@ def run(ctx):
         cls = p.outcome.cls
         rs = [e for e, _ in all_events(p, ("raise",))]
         r = rs[-1] if rs else None
-        if h == handler_for(model, "allocate") and guard_ok and cls in (
+        if h == handler_for(model, "allocate") and cls in (
                 "CrowdedError", "ReclaimedError") and _nameplate_found(p):
-            ctx.note("allocate -> %s: infeasible (the candidate is proved absent from the "
-                     "app's nameplates by R04.guard and handlers are atomic), exempt" % cls)
+            ctx.note("allocate -> %s on a path where the candidate nameplate already has a "
+                     "row: infeasible when the allocator's candidate is absent from the "
+                     "app's nameplates (C04 R04.guard, %s) and handlers are atomic; exempt "
+                     "here, reported under C04 if the guard fails" % (
+                         cls, "discharged" if guard_ok else "NOT discharged on this tree"))
+            ctx.assume("the allocator returns only nameplates without a row in the app "
+                       "(decided by C04 R04.src/R04.guard)")
             continue
         nesc += 1
         ctx.ob("R17.escape", "%s lets %s escape (%s)" % (h, cls, construct_of(r) if r else "?"),
